@@ -37,7 +37,17 @@ def c02_ok (now drift : Int) (tv : Hdr → Hdr → TV) (t : Hdr) (us : List Hdr)
     if (Verify now drift tv p bad).isSome || (len > 0 && bad.height != p.height + 1) then none
     else some "c02_first_bad_excluded"
 
+/-- VerifyRange depends on its arguments only: [h1 h2 h3] verifies, [f1 h2 h3] (h2 not linked to f1) gives [f1] + a hard
+    failure, before and after any other call -/
+def evalC02History (outs : List String) : Verdict :=
+  match kv? outs "good", kv? outs "swapped", kv? outs "again" with
+  | some a, some b, some c =>
+    if a != "3/nil" || c != "3/nil" then .prop "c02_nil_iff" s!"the valid range: {a}, again {c}" else
+    if b != "1/hard" then .prop "c02_first_bad_excluded" s!"[f1 h2 h3] with h2 not linked to f1: result/err = {b}, expected 1/hard" else .ok "history"
+  | _, _, _ => .bad "C02 history"
+
 def evalC02 (ins outs : List String) : Verdict :=
+  if kv? ins "kind" == some "history" then evalC02History outs else
   match kvInt? ins "now", kvInt? ins "drift", kvNat? ins "th", kvInt? ins "tt", kv? ins "us",
         kvNat? outs "len", kvNat? outs "prefix", (kv? outs "err").bind ImplV.parse? with
   | some now, some drift, some th, some tt, some usS, some len, some pref, some err =>
